@@ -234,4 +234,65 @@ def Part.freshFrom (n : Nat) : Part → Prop
   | .imm _ => True
   | .ref a => n ≤ a
 
+
+/-! ### Python's operator dispatch around `__add__` / `__sub__`
+
+`a + b` calls `a.__add__(b)`; when that returns `NotImplemented` and the operands are of different classes, `b.__radd__(a)`;
+when that returns `NotImplemented` too, `TypeError`.  The scale classes (`UtcTimeDelta`, `GpsTimeDelta`, …) are different
+classes, so a refused mixed-scale operation always reaches the reflected method of the right operand.  In the source all
+reflected and in-place methods are stubs that return `NotImplemented` (`reflRefuses`, regenerated from the `ast`:
+`Generated.TimePurity.operators`); the other value of the switch is a `TimeDeltaArray.__radd__` that accepts a left operand
+for which `np.any` is false (meant for the start value 0 of `sum()`), which a zero duration of any scale is as well. -/
+
+/-- an operand as Python sees it: one of the time / duration classes, or a plain number (`isZero`: it is 0, e.g. the start
+value of `sum()`) -/
+inductive Operand
+  | obj (k : Kind) (s : Scale) (v : Val)
+  | plain (isZero : Bool)
+  deriving Repr, DecidableEq
+
+inductive ResP
+  | typeError            -- both methods returned NotImplemented
+  | attributeError       -- `self.scale != other.scale` on an operand without `.scale`
+  | shapeError
+  | ok (k : Kind) (s : Scale) (v : Val)
+  deriving Repr, DecidableEq
+
+/-- `not np.any(x)` of a duration: every element is the zero duration (an empty array as well) -/
+def Val.noneNonzero : Val → Bool
+  | .scalar j => decide (j.inst = 0)
+  | .array js => js.all (fun j => decide (j.inst = 0))
+
+/-- the reflected method of the right operand, `right.__radd__(left)` / `right.__rsub__(left)`; `none` = NotImplemented -/
+def reflected (reflRefuses : Bool) (op : Op) (left right : Operand) : Option ResP :=
+  if reflRefuses then none else
+  match op, right with
+  | .add, .obj .delta s v =>
+    let falsy := match left with
+      | .plain z => z
+      | .obj _ _ lv => lv.noneNonzero
+    if falsy then some (.ok .delta s v) else none
+  | _, _ => none
+
+/-- the `+` / `-` expression -/
+def pyBinop (reflRefuses : Bool) (op : Op) (a b : Operand) : ResP :=
+  match a, b with
+  | .obj ka sa va, .obj kb sb vb =>
+    match binopV op ka sa va kb sb vb with
+    | .ok k v => .ok k sa v
+    | .shapeError => .shapeError
+    | .notImplemented =>
+      if ka = kb ∧ sa = sb then .typeError      -- same class: Python does not try the reflected method
+      else (reflected reflRefuses op a b).getD .typeError
+  | .obj _ _ _, .plain _ => .attributeError      -- the scale guard comes first in all four methods
+  | .plain _, _ => (reflected reflRefuses op a b).getD .typeError   -- int.__add__ does not know the class
+
+/-- `sum(ds)`: `0 + ds[0] + ds[1] + …`, stopping at the first error (`none`: an empty list sums to the plain 0) -/
+def pySum (reflRefuses : Bool) : List Operand → Option ResP
+  | [] => none
+  | d :: rest =>
+    some (rest.foldl (fun acc x => match acc with
+      | .ok k s v => pyBinop reflRefuses .add (.obj k s v) x
+      | e => e) (pyBinop reflRefuses .add (.plain true) d))
+
 end Midgard.TimeArith
